@@ -149,6 +149,10 @@ func (s *Server) refreshConfiguration(ctx context.Context) {
 	if err != nil || len(result) == 0 {
 		return
 	}
+	// Several refreshes can be in flight; merging an answer into the current
+	// settings must not lose what another refresh applies at the same time.
+	s.configMu.Lock()
+	defer s.configMu.Unlock()
 	settings := parseSettingsFromRaw(s.getSettings(), result[0])
 	s.setSettings(settings)
 }
